@@ -25,7 +25,7 @@ Qed.
 Lemma ireach_frame a a' : finals_of a' = finals_of a -> utxos_of a' = utxos_of a -> ireach a a'.
 Proof. split; auto. Qed.
 
-Lemma ireach_cleared ku a s w : is_final a = false -> ireach a (cleared ku a s w).
+Lemma ireach_cleared a s w : is_final a = false -> ireach a (cleared a s w).
 Proof. intros H. split. reflexivity. congruence. Qed.
 
 Definition sreach (st st' : psbt) : Prop :=
@@ -82,11 +82,10 @@ Section Reach.
   Variable sig_flag : N -> option N.
   Variable sighash_ecdsa : N -> option N.
   Variable inp_mall : bool -> bool.
-  Variable keep_unknown : bool.
 
-  Notation stepM := (step try_input interp_check desc_info sig_flag sighash_ecdsa inp_mall keep_unknown).
-  Notation runM := (run try_input interp_check desc_info sig_flag sighash_ecdsa inp_mall keep_unknown).
-  Notation finalize_inputM := (finalize_input try_input keep_unknown).
+  Notation stepM := (step try_input interp_check desc_info sig_flag sighash_ecdsa inp_mall).
+  Notation runM := (run try_input interp_check desc_info sig_flag sighash_ecdsa inp_mall).
+  Notation finalize_inputM := (finalize_input try_input).
 
   (* ---- what finalize_input does, exactly *)
   Lemma finalize_input_spec st i m :
@@ -97,7 +96,7 @@ Section Reach.
         exists a, nth_error (p_inputs st) i = Some a /\
           ((is_final a = true /\ st' = st) \/
            (is_final a = false /\ exists s w, try_input st i m = TOk s w /\
-              st' = with_inputs st (set_nth i (cleared keep_unknown a s w) (p_inputs st))))
+              st' = with_inputs st (set_nth i (cleared a s w) (p_inputs st))))
     end.
   Proof.
     unfold finalize_input. destruct (nth_error (p_inputs st) i) as [a|] eqn:Hn.
@@ -118,7 +117,7 @@ Section Reach.
   Qed.
 
   Lemma fin_mut_loop_sreach m idxs : forall st errs,
-    sreach st (fst (fst (fin_mut_loop try_input keep_unknown m idxs st errs))).
+    sreach st (fst (fst (fin_mut_loop try_input m idxs st errs))).
   Proof.
     induction idxs as [|i r IH]; intros st errs; simpl.
     - apply sreach_refl.
@@ -128,7 +127,7 @@ Section Reach.
       + apply sreach_refl.
   Qed.
 
-  Lemma fin_old_loop_sreach m idxs : forall st, sreach st (fst (fin_old_loop try_input keep_unknown m idxs st)).
+  Lemma fin_old_loop_sreach m idxs : forall st, sreach st (fst (fin_old_loop try_input m idxs st)).
   Proof.
     induction idxs as [|i r IH]; intros st; simpl.
     - apply sreach_refl.
@@ -172,7 +171,7 @@ Section Reach.
     - apply update_input_sreach.
     - unfold finalize_mut.
       pose proof (fin_mut_loop_sreach mall (seq 0 (length (p_inputs st))) st []) as H.
-      destruct (fin_mut_loop try_input keep_unknown mall (seq 0 (length (p_inputs st))) st []) as [[st' es] p].
+      destruct (fin_mut_loop try_input mall (seq 0 (length (p_inputs st))) st []) as [[st' es] p].
       simpl in H. destruct p; destruct es; exact H.
     - unfold finalize_old. destruct (sanity_check sig_flag sighash_ecdsa st); [apply sreach_refl|].
       apply fin_old_loop_sreach.
